@@ -402,8 +402,6 @@ func strp(s *string) string {
 	return fmt.Sprintf("%q", *s)
 }
 
-
-
 func c03RoleForm(pub interface{}, durText *string) url.Values {
 	form := url.Values{}
 	form.Set("identity", "robot-1")
